@@ -359,12 +359,41 @@ def c09(tier):
     return out
 
 
+def c15(tier):
+    out = []
+    ops = ['set', 'clr', 'reset', 'wr1003', 'rd1003', 'get']
+    for h in ((1, 2, 3) if tier == 'quick' else (1, 2, 3, 4)):
+        for mode in (2, 3, 4):
+            for op in range(6):
+                if mode != 2 and tier == 'quick' and h != 2:
+                    continue
+                ne = 4 if tier == 'quick' else 6
+                ring = [None]
+                if op == 0:
+                    ring = [(n, n) for n in range(h)] + [(h, o) for o in range(1, h + 1)]
+                for rg in ring:
+                    defs = dict(NODE_DEFS)
+                    defs.update({'MODE': mode, 'OP': op, 'OD_EMCY_H': h, 'CO_EMCY_N': ne, 'CO_VERIF_SDO_BUF_SEG': 2})
+                    if rg:
+                        defs.update({'HNUM': rg[0], 'HOFF': rg[1]})
+                    uw = node_unwind(2)
+                    uw.update({'COTEmcyHistInit': h + 3, 'COEmcyHistReset': h + 3, 'COEmcySend': 7, 'COEmcyReset': ne + 2, 'COEmcyInit': 9, 'COEmcyCnt': 9,
+                               'm_reg': ne + 2, 'm_cnt': ne + 2, 'check_state': 9, 'COTmrClear': 4})
+                    uw.update(lss_unwind())
+                    out.append(Inst('emcy_step_h%d_%s_%s%s' % (h, NMT_MODE[mode], ops[op], ('_r%d_%d' % rg) if rg else ''), 'emcy_step.c', defs, unwind=20,
+                                    unwindset=uw, objbits=10, harness_only=['MODE', 'OP', 'HNUM', 'HOFF'], family='emcy_step',
+                                    bounds='%d errors, history depth %d, mode %s, operation %s; table, active set, history contents%s, 1014h, arguments symbolic' % (
+                                        ne, h, NMT_MODE[mode], ops[op], (' (ring fill %d, position %d)' % rg) if rg else ', ring fill and position')))
+    return out
+
+
 def c01(tier):
     return sdo_step_insts(tier) + sdo_two_servers(tier)
 
 
 PROPS = {
     'C01': c01,
+    'C15': c15,
     'C09': c09,
     'C04': c04,
     'C02': c02,
